@@ -56,7 +56,7 @@ P('C01', claimed=True, needs_driver=True, level='other',
   unreached=['acceptance by a real scsynth'])
 
 P('C02', claimed=True, needs_driver=True, level='other',
-  contracts=['synth_fmtrw', 'synth_writer'], drivers=['vf.drivers.C02'],
+  contracts=['synth_fmtrw', 'synth_writer', 'synth_synthdef_graph'], drivers=['vf.drivers.C02'],
   level_text=('Discharged (pyvc, all inputs): byte lengths and value ranges of the primitive writers; the field '
               'sequence a unit writes (SynthObject._write_def: name, rate number, input count, output count, '
               'special index as i16, then exactly one input spec per input in order, then the output specs - '
